@@ -348,6 +348,12 @@ class Attack:
                 peak = tracemalloc.get_traced_memory()[1] - base
                 ctx.count('frames_allocation_checked')
                 bound = 400 * max(size, 1) + 600000
+                if peak > bound and not getattr(self, 'confirming', False):
+                    # tracemalloc sees the whole process: one-time lazies
+                    # (source lines cached for a first traceback, codec and
+                    # regex caches) land in whichever frame comes first.
+                    # The attack is deterministic: run it once more, warm.
+                    raise AllocRetry()
                 if peak > bound:
                     return self.fail(
                         'processing a %d-byte frame allocated %d bytes '
@@ -546,9 +552,23 @@ class Attack:
         self.r.close()
 
 
+class AllocRetry(Exception):
+    pass
+
+
 def run_case(ctx, k, traced=False):
     rng = ctx.case_rng(k)
     a = Attack(ctx, rng, 'sync' if k % 2 == 0 else 'async', k)
+    try:
+        a.run(traced)
+        return
+    except AllocRetry:
+        ctx.count('allocation_peaks_measured_again')
+    finally:
+        a.close()
+    rng = ctx.case_rng(k)
+    a = Attack(ctx, rng, 'sync' if k % 2 == 0 else 'async', k)
+    a.confirming = True
     try:
         a.run(traced)
     finally:
